@@ -201,6 +201,9 @@ char *get_tmp_dir(char *old_dir) {
 int main (int argc, char *argv[]) {
     struct arguments arguments = {0};
 
+    /* Files we open must not land on a closed stdin/stdout/stderr */
+    reserve_std_fds();
+
     /* Defaults */
     arguments.log_level = ZCK_LOG_ERROR;
 
